@@ -1,5 +1,7 @@
-//! C13 — backends see the client's request plus truthful, unspoofable proxy metadata
-//! (HTTP/1.1 front, HTTP/1.1 back tier).
+//! C13 — backends see the client's request plus truthful, unspoofable proxy metadata.
+//! Two plan families: the HTTP/1.1 front / HTTP/1.1 back family of this file, and the mux family
+//! (`c13_mux.rs`: HTTP/1.1 client -> h2c backend, HTTP/2-over-TLS client -> HTTP/1.1 backend, HTTP/2 client
+//! -> h2c backend; plans carry a `mux` field), about one seeded plan in three.
 //!
 //! Plan: >=2 keep-alive clients with different simulated addresses (IPv4 and IPv6, direct or behind
 //! PROXY-v2), exact request bytes (`ReqSpec.raw`) built from a structured header list, exact
@@ -29,6 +31,9 @@ use crate::world::MS;
 #[path = "c13_model.rs"]
 pub mod c13_model;
 use c13_model::{self as model, Truth};
+/// second plan family: the three protocol pairs with an HTTP/2 side (plans carry a `mux` field)
+#[path = "c13_mux.rs"]
+pub mod c13_mux;
 
 pub struct C13;
 
@@ -812,7 +817,14 @@ fn shrink_plan(p: &Plan) -> Vec<Plan> {
 impl Property for C13 {
     fn id(&self) -> &'static str { "C13" }
     fn runs(&self, tier: Tier) -> u64 { match tier { Tier::Quick => 6_000, Tier::Thorough => 150_000 } }
-    fn gen_plan(&self, seed: u64, tier: Tier) -> Value { serde_json::to_value(generate(seed, tier)).unwrap() }
+    fn gen_plan(&self, seed: u64, tier: Tier) -> Value {
+        // about one plan in three belongs to the mux family; the HTTP/1.1 family keeps its generator (same plan for the same seed)
+        // (triage aid: C13_FAMILY=mux|h1 forces one family; never set by the check scripts)
+        let forced = std::env::var("C13_FAMILY").ok();
+        let mux = match forced.as_deref() { Some("mux") => true, Some("h1") => false, _ => Prng::derive(seed, "c13/family").below(3) == 0 };
+        if mux { return serde_json::to_value(c13_mux::generate(seed, tier)).unwrap(); }
+        serde_json::to_value(generate(seed, tier)).unwrap()
+    }
     fn enumerated(&self, tier: Tier) -> Vec<Value> {
         let n = match tier { Tier::Quick => 120, Tier::Thorough => 600 };
         let mut v = Vec::new();
@@ -820,6 +832,9 @@ impl Property for C13 {
         v
     }
     fn run_plan(&self, plan: &Value) -> RunReport {
+        if plan.get("mux").is_some() {
+            return match serde_json::from_value::<c13_mux::MuxFam>(plan.clone()) { Ok(p) => c13_mux::run_report(&p), Err(e) => RunReport { harness_error: Some(format!("bad plan: {e}")), ..Default::default() } };
+        }
         let p: Plan = match serde_json::from_value(plan.clone()) { Ok(p) => p, Err(e) => return RunReport { harness_error: Some(format!("bad plan: {e}")), ..Default::default() } };
         if p.clients.len() != p.http.clients.len() { return RunReport { harness_error: Some("bad plan: client lists differ".into()), ..Default::default() }; }
         let (h, o) = run(&p, false);
@@ -842,10 +857,15 @@ impl Property for C13 {
         rep
     }
     fn shrink(&self, plan: &Value) -> Vec<Value> {
+        if plan.get("mux").is_some() {
+            let Ok(p) = serde_json::from_value::<c13_mux::MuxFam>(plan.clone()) else { return vec![] };
+            return c13_mux::shrink(&p).into_iter().map(|p| serde_json::to_value(p).unwrap()).collect();
+        }
         let Ok(p) = serde_json::from_value::<Plan>(plan.clone()) else { return vec![] };
         shrink_plan(&p).into_iter().map(|p| serde_json::to_value(p).unwrap()).collect()
     }
     fn debug_plan(&self, plan: &Value) -> String {
+        if plan.get("mux").is_some() { return c13_mux::debug(&serde_json::from_value(plan.clone()).unwrap()); }
         let p: Plan = serde_json::from_value(plan.clone()).unwrap();
         let (h, o) = run(&p, std::env::var("C13_LOG").is_ok());
         let mut s = summarize(&p) + "\n";
@@ -864,11 +884,11 @@ impl Property for C13 {
     fn descr(&self) -> Descr {
         Descr {
             level: "exploration",
-            rule: "seeded plans: 2-4 keep-alive (sometimes pipelining) HTTP/1.1 clients with distinct IPv4/IPv6 addresses (direct or behind PROXY-v2), 1-4 requests each with a sampled header list (duplicates, case variants, whitespace variants, cookies incl. the sticky cookie, spoofed X-Forwarded-For/Forwarded/X-Forwarded-Proto/Port/X-Real-IP/X-Request-Id/correlation header, connection-specific fields, chunked trailers carrying identity fields), listener knobs (elide/send X-Real-IP, correlation header name, sticky name, public address, expect_proxy), cluster sticky_session, per-frontend header edits; every request a backend received and every relayed response is compared with an independent model of the documented transformation; non-trivial = >=1 backend-received request compared; distinct = distinct hashes of scheduler trace + all observed header sections",
-            assumptions: vec!["AF_UNIX stands in for TCP; IPv4 and IPv6 clients reach the same simulated listener", "release semantics", "where the documentation is silent a transformation is accepted only if an RFC 9110 recipient cannot see a difference (Host moved to the first field, Cookie lines merged with '; ', optional whitespace normalised, empty Cookie line after sticky elision, request trailers dropped)", "PROXY-v2: both the configured public address and the PROXY destination are accepted as the proxy's own address"],
-            real: vec!["sozu_lib::server::Server::run (HTTP listener, PROXY-v2 expect state, mux H1, kawa parser + H1 converter, kawa_h1::editor callbacks, router header edits, sticky sessions)", "sozu_command_lib Channel/ConfigState", "mio", "Linux epoll + AF_UNIX"],
-            stub: vec!["IP network (AF_UNIX pairs + address translation: peer_addr() returns the simulated client address)", "clock", "entropy (ULIDs are seeded)", "clients", "backends", "master process (scripted)"],
-            not_covered: vec!["HTTPS front, HTTP/2 on either side (H2 tier)", "HSTS (rejected on plaintext listeners, RFC 6797 7.2)", "frontend edits of identity headers (X-Forwarded-*) and host/path rewrites", "malformed Forwarded/X-Forwarded-For values (unbalanced quotes, empty elements), obs-fold, non-ASCII header values", "backend responses that themselves carry the correlation header name", "close-delimited responses, backend 'Connection: close', lengthless requests (known findings F1-F3)", "response trailers, 1xx/101 upgrades", "cross-client isolation over a *shared* backend connection: sozu gives every HTTP/1.1 client connection its own backend connections (probe backend_conn_shared_across_clients stays 0), so reuse is only exercised across the requests of one client; foreign markers/addresses are still searched for on every request and response"],
+            rule: "two seeded plan families. (1) HTTP/1.1 family (about 2 plans in 3, plus the enumerated short-write plans): 2-4 keep-alive (sometimes pipelining) HTTP/1.1 clients with distinct IPv4/IPv6 addresses (direct or behind PROXY-v2), 1-4 requests each with a sampled header list (duplicates, case variants, whitespace variants, cookies incl. the sticky cookie, spoofed X-Forwarded-For/Forwarded/X-Forwarded-Proto/Port/X-Real-IP/X-Request-Id/correlation header, connection-specific fields, chunked trailers carrying identity fields), listener knobs (elide/send X-Real-IP, correlation header name, sticky name, public address, expect_proxy), cluster sticky_session, per-frontend header edits. (2) mux family (about 1 plan in 3; pairs HTTP/1.1 client -> h2c backend, HTTP/2-over-TLS client -> HTTP/1.1 backend, HTTP/2 client -> h2c backend): one client connection (IPv4 or IPv6) with 1-3 requests (HTTP/2: concurrent streams), requests AND responses carry seeded field lists from a small alphabet (custom names in mixed case on HTTP/1.1, 2-3 same-name fields whose order matters, values with inner HTAB, optional whitespace around HTTP/1.1 field lines, empty value, 1-4 kB value, ',' ';' '\"', obs-text as UTF-8 from HTTP/2 senders, cookies split over 1-3 cookie fields, Set-Cookie duplicates), the same spoof attempts and listener knobs on both listeners plus sticky_session and an HSTS policy on the HTTPS frontend, connection-specific fields from HTTP/1.1 senders (Connection options naming other fields, Keep-Alive, Proxy-Connection, Upgrade, TE, Transfer-Encoding), te: trailers from HTTP/2 clients, HTTP/1.1 chunked and HTTP/2 request trailers carrying identity fields, HTTP/2 field values with CR/LF/NUL (must be refused), tiny bodies. Every request a backend received and every relayed response is compared with an independent model of the documented transformation (exact octets of every end-to-end value, order of same-name fields, no connection-specific field and no upper-case name toward an HTTP/2 peer, truthful proxy metadata, documented response additions only); non-trivial = >=1 backend-received request compared; distinct = distinct hashes of scheduler trace + all observed field lists",
+            assumptions: vec!["AF_UNIX stands in for TCP; IPv4 and IPv6 clients reach the same simulated listener", "release semantics", "where the documentation is silent a transformation is accepted only if an RFC 9110 recipient cannot see a difference (Host moved to the first field / carried as :authority, Cookie fields merged with '; ' or split per RFC 9113 8.2.3, optional whitespace of an HTTP/1.1 field line dropped, same-name fields combined with ', ' except Set-Cookie, empty Cookie line after sticky elision, request trailers dropped in whole or in part, Content-Length added when the length is known, re-framing between Content-Length / chunked / END_STREAM)", "PROXY-v2: both the configured public address and the PROXY destination are accepted as the proxy's own address", "mux family: violations of a request that travels behind a recorded whole-connection defect are keyed by the plan-level trigger (h2_backend = C14 H2B, h2_request_trailers_to_h1_backend = C14 H2F-1, h1_chunked_trailers_to_h2c_backend and after_bodyless_response_from_h2c_backend = C13-F11/F12); HTTP/2 peers return flow-control credit in bulk (sozu documents a WINDOW_UPDATE flood detector); h2c backends are mostly fast and 204 answers from them rare, so that such plans stay a minority"],
+            real: vec!["sozu_lib::server::Server::run (HTTP and HTTPS listeners, PROXY-v2 expect state, mux H1 and H2 on both sides, kawa parser + H1 converter, mux/pkawa.rs (HTTP/2 -> kawa, trailer elision), mux/converter.rs (kawa -> HTTP/2 frames, connection-specific and value filters), kawa_h1::editor callbacks, router header edits / HSTS / sticky sessions, rustls + ring TLS termination, loona-hpack)", "sozu_command_lib Channel/ConfigState", "mio", "Linux epoll + AF_UNIX"],
+            stub: vec!["IP network (AF_UNIX pairs + address translation: peer_addr() returns the simulated client address)", "clock", "entropy (ULIDs are seeded)", "HTTP/1.1 clients and backends", "HTTP/2 clients (own frame codec and HPACK encoder, rustls client) and h2c backends (own codec)", "master process (scripted)"],
+            not_covered: vec!["HTTP/1.1 over TLS", "mux family: PROXY protocol, per-frontend header edits, several clusters / several clients per plan (cross-client isolation is the HTTP/1.1 family's)", "frontend edits of identity headers (X-Forwarded-*) and host/path rewrites", "malformed Forwarded/X-Forwarded-For values (unbalanced quotes, empty elements), obs-fold, non-UTF-8 obs-text, obs-text from HTTP/1.1 senders (the HTTP/1.1 parser rejects it)", "backend responses that themselves carry the correlation header name", "close-delimited responses, backend 'Connection: close'", "response trailers, 1xx/101 upgrades, HEAD", "HTTP/2 requests with Content-Length AND trailers; bodies above 300 bytes in the mux family (C01/C14 own large bodies)", "force_replace_backend HSTS mode, listener-level HSTS default", "cross-client isolation over a *shared* backend connection: sozu gives every HTTP/1.1 client connection its own backend connections (probe backend_conn_shared_across_clients stays 0); in the mux family the streams of one HTTP/2 client share backend connections (probe requests_on_shared_backend_conn) and foreign markers are searched for on every request and response"],
         }
     }
 }
